@@ -551,10 +551,51 @@ def h_after_rejected(ctx):
               "roundtrip-after-a-rejected-packet", (bad, nargs))
 
 
+def h_decode_twice(ctx):
+    """The same datagram decoded twice, the first result altered by the
+    caller in between (as when a reply is built from a request): the second
+    decode gives the fields of the bytes again, in an object of its own."""
+    from rig.machine_control.packets import SDPPacket, SCPPacket
+    kind = ctx.pick(["sdp", "scp"])
+    data = ctx.pick([b"", b"\x01\x02\x03\x04\x05\x06\x07\x08\x09"])
+    sdp = SDPPacket(True, 0x21, 2, 3, 4, 5, 6, 7, 8, 9, data)
+    scp = SCPPacket(False, 0x21, 2, 3, 4, 5, 6, 7, 8, 9, 0x1122, 0x3344,
+                    1, 2, 3, data)
+    cls, wire = (SDPPacket, sdp.bytestring) if kind == "sdp" else (
+        SCPPacket, scp.bytestring)
+    names = ["reply_expected", "tag", "dest_port", "dest_cpu", "src_port",
+             "src_cpu", "dest_x", "dest_y", "src_x", "src_y", "data"]
+    if kind == "scp":
+        names += ["cmd_rc", "seq", "arg1", "arg2", "arg3"]
+    try:
+        a = cls.from_bytestring(wire)
+        first = [getattr(a, n) for n in names]
+        # the caller turns the request into a reply
+        a.dest_x, a.src_x = a.src_x, a.dest_x
+        a.dest_y, a.src_y = a.src_y, a.dest_y
+        a.dest_cpu, a.src_cpu = a.src_cpu, a.dest_cpu
+        a.tag, a.reply_expected, a.data = 0, False, b"changed"
+        b = cls.from_bytestring(bytes(bytearray(wire)))
+        second = [getattr(b, n) for n in names]
+        again = b.bytestring
+    except Exception as e:
+        ctx.observe(type(e).__name__)
+        ctx.prove(False, "encode-raised-on-documented-values", repr(e))
+        return
+    ctx.observe(kind, len(wire))
+    ctx.witness("decoded-twice")
+    ctx.prove(b is not a, "decode-returns-shared-object", kind)
+    ctx.prove(second == first, "decode-depends-on-earlier-decode",
+              (kind, first, second))
+    ctx.prove(again == wire, "roundtrip-after-earlier-decode", kind)
+
+
 def units(tier, seed):
     thorough = tier == "thorough"
     us = [Unit("extreme field values (concrete)", h_extremes, {},
                witnesses=("extremes",)),
+          Unit("the same datagram decoded twice (concrete)", h_decode_twice,
+               {}, witnesses=("decoded-twice",)),
           Unit("a rejected packet, then a valid one (concrete)",
                h_after_rejected, {}, witnesses=("rejected",))]
     lens = tuple(range(0, 25 if thorough else 17))
